@@ -691,6 +691,12 @@ func (db *DB) Begin(opts ...*sql.TxOptions) *DB {
 		opt = opts[0]
 	}
 
+	// a handle that already carries an error is reported as failed by callers (Transaction returns
+	// tx.Error without a rollback): don't open a transaction nobody is going to finish
+	if tx.Error != nil {
+		return tx
+	}
+
 	switch beginner := tx.Statement.ConnPool.(type) {
 	case TxBeginner:
 		tx.Statement.ConnPool, err = beginner.BeginTx(tx.Statement.Context, opt)
